@@ -623,6 +623,57 @@ pub fn scaling_histories(max_video: usize) -> Vec<(Cfg, Vec<Op>, String)> {
             ops.push(Op::WA { pts: T(i as f64 * unit), data: au.clone() });
         }
         out.push((cfg, ops, format!("{n} samples per track")));
+        // the same long video track with a sparse audio track that starts late: audio sample j
+        // shares its tick with a video frame whose index is beyond 2^16 (keys that pack an
+        // index next to a track kind have their overflow there)
+        let cfg = Cfg::basic(VCodec::H264, Some(ACodec::AacLc), fs);
+        let mut ops = Vec::with_capacity(n + 8);
+        let vk = Bytes::new(video_frame(VCodec::H264, true, true, 1, 3).0);
+        let vd = Bytes::new(video_frame(VCodec::H264, false, false, 4, 2).0);
+        for i in 0..n {
+            ops.push(Op::WV { pts: T(i as f64 * unit), data: if i % 250 == 0 { vk.clone() } else { vd.clone() }, key: i % 250 == 0 });
+            if [65_535usize, 65_536, 65_537, 65_539, 65_540, 65_999].contains(&i) {
+                ops.push(Op::WA { pts: T(i as f64 * unit), data: Bytes::new(audio_frame(ACodec::AacLc, i as u32, 4 + i % 3).0) });
+            }
+        }
+        out.push((cfg, ops, format!("{n} video samples, 6 late audio samples on shared ticks")));
+    }
+    // audio parameters: every audio kind x channel counts (the Opus description changes shape
+    // beyond two channels) x sample rates, both layouts
+    for &ac in oracle::frames::ACODECS.iter() {
+        let chans: Vec<u16> = if ac.is_aac() { vec![1, 2, 3, 6, 8] } else { vec![1, 2, 3, 6, 8, 9, 255] };
+        for ch in chans {
+            for rate in [8_000u32, 44_100, 48_000] {
+                for fs in [true, false] {
+                    let mut cfg = Cfg::basic(VCodec::H264, Some(ac), fs);
+                    cfg.audio = Some(oracle::model::AudioCfg { codec: ac, rate, channels: ch });
+                    let mut ops = vec![];
+                    for i in 0..2usize {
+                        ops.push(Op::WV { pts: T(i as f64 * unit), data: Bytes::new(video_frame(VCodec::H264, i == 0, i == 0, i as u32 + 1, 5).0), key: i == 0 });
+                        ops.push(Op::WA { pts: T(i as f64 * unit), data: Bytes::new(audio_frame(ac, i as u32, 6).0) });
+                    }
+                    out.push((cfg, ops, format!("audio {ac:?} {ch} channels at {rate} Hz")));
+                }
+            }
+        }
+    }
+    // single-unit frames of every length 1..=400 behind a short and behind a long start code (a
+    // frame whose first bytes happen to read as a length that covers the rest of the frame is
+    // still Annex B): one history per codec and start-code form
+    for codec in [VCodec::H264, VCodec::H265] {
+        for mode in [0u32, 3] {
+            let cfg = Cfg::basic(codec, None, mode == 0);
+            let mut ops = vec![Op::WV { pts: T(0.0), data: Bytes::new(video_frame(codec, true, true, 4, 5).0), key: true }];
+            for len in 1..=400usize {
+                let mut u = vec![if codec == VCodec::H264 { 0x41 } else { 0x02 }];
+                if codec == VCodec::H265 {
+                    u.push(0x01);
+                }
+                u.extend(oracle::frames::body(len as u32, len));
+                ops.push(Op::WV { pts: T(len as f64 * unit), data: Bytes::new(oracle::frames::annexb_mode(&[u], mode)), key: false });
+            }
+            out.push((cfg, ops, format!("{codec:?} single-unit frames of 1..400 bytes, start-code mode {mode}")));
+        }
     }
     out
 }
